@@ -234,6 +234,18 @@ def main():
     for k, v in payload.get("options", {}).items():
         dds.set_option(k, v)
     rec = []
+    gate = payload.get("gate")
+    if gate:
+        # warm-up of everything that touches the file system lazily (codec registry, importlib caches)
+        from dds.codec import codec_registry
+        codec_registry()
+        for a in payload["actions"]:
+            if a.get("mod"):
+                importlib.import_module(payload["pkg"] + "." + a["mod"])
+        import fsgate
+        fsgate.install([payload["store"].get("internal_dir", "/nonexistent"), payload["store"].get("data_dir", "/nonexistent")],
+                       mode=gate.get("mode", "trace"), crash_at=gate.get("crash_at"), half=gate.get("half", False),
+                       logfile=gate.get("logfile"))
     store = make_store(payload["store"], rec)
     dds.set_store(store)
     out = []
@@ -306,6 +318,9 @@ def main():
         res["rec"] = [list(r) for r in rec]
         res["in_eval"] = _api._eval_ctx is not None
         out.append(res)
+    if gate:
+        import fsgate
+        out.append({"gate_log": fsgate.log()})
     print("@@RESULT@@" + json.dumps(out))
 
 
